@@ -503,6 +503,22 @@ def provenance(func_node, expr, max_depth=12, control=None):
             out.add(('attr', d or norm(e), e))
             if d is None:
                 visit(e.value, at_node, depth + 1)
+            elif not d.startswith(('self.', 'cls.')):
+                # obj.attr of a local object: the object's origin matters too
+                root = e
+                while isinstance(root, ast.Attribute):
+                    root = root.value
+                if isinstance(root, ast.Name) and rd.reaching(at_node, root.id):
+                    visit(root, at_node, depth + 1)
+            if d is not None and d.startswith('self.') and d.count('.') == 1 and isinstance(e.ctx, ast.Load):
+                # an attribute stored earlier in this same function carries
+                # the stored value (self.text = preprocessor.text ... f(self.text))
+                for st in ast.walk(func_node):
+                    if isinstance(st, ast.Assign) and getattr(st, 'lineno', 0) < getattr(e, 'lineno', 0) \
+                            and any(isinstance(t, ast.Attribute) and dotted(t) == d for t in st.targets):
+                        owner = st
+                        if owner in cfg.of_stmt:
+                            visit(st.value, cfg.of_stmt[owner], depth + 1)
             return
         if isinstance(e, ast.Subscript):
             out.add(('sub', norm(e), e))
